@@ -351,6 +351,52 @@ def add_cache_contracts(pack, matches, coherent, active_known):
     c.ensures("no method is left", lambda a: tbl(a.post.st, a.self, "_methods")[1] == z3.K(V.Val, z3.BoolVal(False)))
     c = mutator("prefer_method")
     c.requires("proper dispatch values", lambda a: z3.And(*[z3.Not(z3.Or(V.is_bool(v), V.is_frac(v), V.is_none(v))) for v in (a.preferred_key, a.other_key)]))
+    P1, P2 = z3.Const("any_preferred", V.Val), z3.Const("any_other", V.Val)
+
+    def proper(v):
+        return z3.Not(z3.Or(V.is_bool(v), V.is_frac(v), V.is_none(v)))
+
+    c.ensures("exactly this preference is declared: afterwards p is preferred over o iff it was before or (p, o) is the declared pair - nothing is lost, nothing else is "
+              "gained (P1, P2 arbitrary)",
+              lambda a: z3.Implies(z3.And(proper(P1), proper(P2)),
+                                   PREF(a.post.st, a.self, P1, P2) == z3.Or(PREF(a.pre.st, a.self, P1, P2), z3.And(P1 == a.preferred_key, P2 == a.other_key))))
+    c.ensures("the methods are untouched", lambda a: z3.And(*[tbl(a.post.st, a.self, "_methods")[i] == tbl(a.pre.st, a.self, "_methods")[i] for i in (0, 1)]))
+    c.ensures_on_raise("a refused preference changes nothing", lambda a: z3.And(*[tbl(a.post.st, a.self, f)[i] == tbl(a.pre.st, a.self, f)[i] for f in ("_methods", "_prefers") for i in (0, 1)]))
+    c.raises_only_if("refused only when the opposite preference is already declared", (Exception,), lambda a: PREF(a.pre.st, a.self, a.other_key, a.preferred_key))
+    c.replay(lambda m, ctx, ob: PREFER_REPLAY)
+    c.replay_without_model = True
+
+
+PREFER_REPLAY = r'''
+from basilisp import main as bm; bm.init()
+import importlib; importlib.import_module("basilisp.core")
+from basilisp.lang import multifn, keyword as kw, symbol as sym, atom, map as lmap, set as lset
+A, B, C, D = (kw.keyword(n, ns="c18p") for n in "abcd")
+bad = []
+def fresh():
+    return multifn.MultiFunction(sym.symbol("c18-prefer"), lambda v: v, kw.keyword("default"), atom.Atom(lmap.EMPTY))
+def prefs(mf):
+    return {k: set(v) for k, v in mf.prefers.items()}
+mf = fresh()
+mf.prefer_method(A, B); mf.prefer_method(A, C)
+if prefs(mf) != {A: {B, C}}:
+    bad.append("a>b then a>c gives %r, expected {a #{b c}}" % (prefs(mf),))
+mf = fresh()
+mf.prefer_method(B, C); mf.prefer_method(A, B)
+if prefs(mf) != {B: {C}, A: {B}}:
+    bad.append("b>c then a>b gives %r, expected {b #{c}, a #{b}}" % (prefs(mf),))
+mf = fresh()
+mf.prefer_method(A, B)
+try:
+    mf.prefer_method(B, A)
+    bad.append("b>a accepted although a>b is declared")
+except Exception:
+    if prefs(mf) != {A: {B}}:
+        bad.append("a refused preference changed the table: %r" % (prefs(mf),))
+for line in bad:
+    print(line)
+print("REPRODUCED" if bad else "not reproduced")
+'''
 
 
 WITNESS_ORDER = r'''
